@@ -4,6 +4,7 @@ import (
 	"encoding/json"
 	"fmt"
 	"os"
+	"path/filepath"
 	"sort"
 	"strings"
 	"time"
@@ -54,6 +55,21 @@ func loadProps() map[string]*PropSpec {
 	m := map[string]*PropSpec{}
 	for _, p := range list {
 		m[p.ID] = p
+	}
+	// one file per property under props.d (same schema, a single object per file)
+	extra, _ := filepath.Glob("/verif/props.d/*.json")
+	sort.Strings(extra)
+	for _, f := range extra {
+		b, err := os.ReadFile(f)
+		if err != nil {
+			continue
+		}
+		var p PropSpec
+		if err := json.Unmarshal(b, &p); err != nil {
+			fmt.Fprintln(os.Stderr, f+":", err)
+			os.Exit(2)
+		}
+		m[p.ID] = &p
 	}
 	return m
 }
